@@ -683,10 +683,80 @@ example : trace .hotcold (cmdOf (.repairIndexOn [(7, 100), (8, 50)] [] false (fu
       (cmdOf (.repairIndexOn [(7, 100), (8, 50)] [] false (fun _ => 1))).reads =
     [.warm 7, .warm 8, .coldRead 7, .coldRead 8] := by decide
 
+/-! #### prune on a plan: both loops of `decide_repack` feed the request -/
+
+theorem prunePlan_reads_covered (k : Rustic.Prune.Consts) (o : Rustic.Prune.Opts) (ps : List Rustic.Prune.PPack)
+    (chunks : Rustic.Prune.PPack → Nat) :
+    ∀ c ∈ (prunePlanCmd k o ps chunks).reads, c.pack ∈ (prunePlanCmd k o ps chunks).warm := by
+  intro c hc
+  simp only [prunePlanCmd, List.mem_flatMap, List.mem_replicate] at hc
+  obtain ⟨pk, hpk, _, rfl⟩ := hc
+  simp only [prunePlanCmd, repackPacks, List.mem_map]
+  exact ⟨pk, hpk, rfl⟩
+
+/-- every pack of the decided plan with `to_do == Repack` is in the warm-up request and, if it has blobs to copy, is read -/
+theorem repack_decision_requested_and_read (k : Rustic.Prune.Consts) (o : Rustic.Prune.Opts) (ps : List Rustic.Prune.PPack)
+    (chunks : Rustic.Prune.PPack → Nat) (p : Rustic.Prune.PPack) (hp : p ∈ Rustic.Prune.decideRepack k o ps)
+    (ht : p.todo = .repack) :
+    p.id ∈ (prunePlanCmd k o ps chunks).warm ∧
+      (0 < chunks p → Call.partialRead p.id (Rustic.Prune.isCacheable p.blobType) ∈ (prunePlanCmd k o ps chunks).reads) := by
+  refine ⟨?_, fun hc => ?_⟩
+  · simp only [prunePlanCmd, repackPacks, List.mem_map, List.mem_filter]
+    exact ⟨p, ⟨hp, by simp [ht]⟩, rfl⟩
+  · simp only [prunePlanCmd, List.mem_flatMap, List.mem_filter, List.mem_replicate]
+    exact ⟨p, ⟨hp, by simp [ht]⟩, by omega, rfl⟩
+
+/-- **candidate_repack_requested.**  Every plan × every option set: a repack candidate of `decide_packs` — whatever its reason —
+that `decide_repack` (first OR second loop: `repackDecisions` = `loop1` then `loop2`) decides to repack is in the argument of
+prune's `warm_up_wait`. -/
+theorem candidate_repack_requested (k : Rustic.Prune.Consts) (o : Rustic.Prune.Opts) (ps : List Rustic.Prune.PPack)
+    (chunks : Rustic.Prune.PPack → Nat) (q : Rustic.Prune.PPack) (hq : q ∈ ps) (r : Rustic.Prune.Reason)
+    (hc : q.cand = some r) (hd : Rustic.Prune.lookupTodo q.pos (Rustic.Prune.repackDecisions k o ps) = .repack) :
+    q.id ∈ (prunePlanCmd k o ps chunks).warm := by
+  have hmem : ({ q with todo := Rustic.Prune.lookupTodo q.pos (Rustic.Prune.repackDecisions k o ps) } : Rustic.Prune.PPack)
+      ∈ Rustic.Prune.decideRepack k o ps := by
+    simp only [Rustic.Prune.decideRepack, List.mem_map]
+    exact ⟨q, hq, by simp [hc]⟩
+  exact (repack_decision_requested_and_read k o ps chunks _ hmem hd).1
+
+/-- **resize_repack_requested.**  The packs switched to Repack ONLY TO BE RESIZED (reason SizeMismatch: fully used, wrong size —
+they go through `resize_packs` and the second loop of `decide_repack`) are requested like the partly used ones … -/
+theorem resize_repack_requested (k : Rustic.Prune.Consts) (o : Rustic.Prune.Opts) (ps : List Rustic.Prune.PPack)
+    (chunks : Rustic.Prune.PPack → Nat) (q : Rustic.Prune.PPack) (hq : q ∈ ps) (hc : q.cand = some .sizeMismatch)
+    (hd : Rustic.Prune.lookupTodo q.pos (Rustic.Prune.repackDecisions k o ps) = .repack) :
+    q.id ∈ (prunePlanCmd k o ps chunks).warm :=
+  candidate_repack_requested k o ps chunks q hq _ hc hd
+
+theorem partly_used_repack_requested (k : Rustic.Prune.Consts) (o : Rustic.Prune.Opts) (ps : List Rustic.Prune.PPack)
+    (chunks : Rustic.Prune.PPack → Nat) (q : Rustic.Prune.PPack) (hq : q ∈ ps) (hc : q.cand = some .partlyUsed)
+    (hd : Rustic.Prune.lookupTodo q.pos (Rustic.Prune.repackDecisions k o ps) = .repack) :
+    q.id ∈ (prunePlanCmd k o ps chunks).warm :=
+  candidate_repack_requested k o ps chunks q hq _ hc hd
+
+/-- the second loop: a resize candidate of blob type data becomes Repack iff data packs are repacked anyway (`do_repack`) or the
+accumulated repack size exceeds the target pack size; `repackDecisions` is the first loop followed by this one -/
+theorem resize_follows_blob_type (k : Rustic.Prune.Consts) (o : Rustic.Prune.Opts) (st : Rustic.Prune.RState) (pos : Nat) :
+    (Rustic.Prune.loop2 k o st (pos, .data, .resize)).2 = .repack ↔
+      (st.doData = true ∨ st.repData > (o.sizer .data).packSize k) := by
+  simp only [Rustic.Prune.loop2]
+  by_cases h1 : st.doData = true <;> by_cases h2 : st.repData > (o.sizer .data).packSize k <;> simp [h1, h2]
+
+theorem repackDecisions_eq_two_loops (k : Rustic.Prune.Consts) (o : Rustic.Prune.Opts) (ps : List Rustic.Prune.PPack) :
+    Rustic.Prune.repackDecisions k o ps = (firstLoop o ps).1.map (Rustic.Prune.loop2 k o (firstLoop o ps).2) := rfl
+
+/-- **prune_plan_warm_before_read.**  Every plan × options × layout × order of the reads: each read of prune's repacking that
+reaches the cold store — of a partly used pack or of a pack that is only resized — has an earlier warm-up request. -/
+theorem prune_plan_warm_before_read (l : Layout) (k : Rustic.Prune.Consts) (o : Rustic.Prune.Opts)
+    (ps : List Rustic.Prune.PPack) (chunks : Rustic.Prune.PPack → Nat) (rs : List Call)
+    (hp : rs.Perm (prunePlanCmd k o ps chunks).reads) :
+    WarmBeforeRead (trace l (prunePlanCmd k o ps chunks).warm rs) :=
+  warm_then_reads l _ rs (fun x hx => prunePlan_reads_covered k o ps chunks x (hp.mem_iff.1 hx))
+
 theorem reads_covered (c : Command) : ∀ x ∈ (cmdOf c).reads, x.pack ∈ (cmdOf c).warm := by
   cases c with
   | restore hole limit r => exact restore_reads_covered hole limit r
   | prune idx => exact prune_reads_covered idx
+  | prunePlan k o ps chunks => exact prunePlan_reads_covered k o ps chunks
   | repairIndex t => exact repairIndex_reads_covered t
   | repairIndexOn store files readAll nreads => exact repairIndex_reads_covered _
   | checkReadData ps =>
@@ -742,6 +812,110 @@ example : ¬ WarmBeforeRead [Ev.coldRead 1, Ev.warm 1] := by
 example : trace .hotcold (pruneCmd [[⟨3, true, true, 1⟩, ⟨5, false, true, 2⟩], [⟨8, false, false, 4⟩]]).warm
       (pruneCmd [[⟨3, true, true, 1⟩, ⟨5, false, true, 2⟩], [⟨8, false, false, 4⟩]]).reads =
     [.warm 3, .warm 5, .hotRead 3, .coldRead 5, .coldRead 5] := by decide
+
+/-! #### a concrete plan with a resize repack (the shape of `backup {a,b}; backup {a,c}; forget 1; prune --max-unused 0 %`) -/
+
+def wK : Rustic.Prune.Consts := { compOverhead := 0, lengthLen := 4, entryLen := 37, entryLenComp := 41, minIndexLen := 0, maxPackSize := 4000000000 }
+def wSizer : Rustic.Prune.Sizer := { defaultSize := 1000, growFactor := 0, sizeLimit := 4000000000, currentSize := 0, minPct := 30, maxPct := 300 }
+def wO : Rustic.Prune.Opts :=
+  { now := 100, keepPack := 0, keepDelete := 0, repackCacheableOnly := false, repackUncompressed := false, repackAll := false,
+    noResize := false, instantDelete := true, earlyDeleteIndex := false, maxRepack := .unlimited, maxUnused := .percent 0,
+    treeSizer := wSizer, dataSizer := wSizer }
+/-- pack 5: data, blobs a (used) and b (unused) — candidate PartlyUsed; pack 6: data, blob c, fully used but too small — candidate
+SizeMismatch -/
+def wPlan : List Rustic.Prune.PPack :=
+  [ { pos := 0, index := 0, id := 5, blobType := .data, size := 100, mark := false, time := some 1, blobs := [],
+      info := { blobType := .data, usedBlobs := 1, unusedBlobs := 1, usedSize := 50, unusedSize := 50 }, cand := some .partlyUsed },
+    { pos := 1, index := 1, id := 6, blobType := .data, size := 60, mark := false, time := some 2, blobs := [],
+      info := { blobType := .data, usedBlobs := 1, unusedBlobs := 0, usedSize := 60, unusedSize := 0 }, cand := some .sizeMismatch } ]
+
+/-- the first loop sets pack 5 to Repack and parks pack 6 in `resize_packs`; the second loop switches pack 6 to Repack (data packs
+are repacked anyway); the request holds both and both are read from the cold store after it -/
+example : (firstLoop wO wPlan).1 = [(0, .data, .repack), (1, .data, .resize)] ∧
+    Rustic.Prune.repackDecisions wK wO wPlan = [(0, .repack), (1, .repack)] ∧
+    trace .hotcold (prunePlanCmd wK wO wPlan (fun _ => 1)).warm (prunePlanCmd wK wO wPlan (fun _ => 1)).reads =
+      [.warm 5, .warm 6, .coldRead 5, .coldRead 6] := by decide
+
+/-- the seeded change C16-6 (ids recorded by the first loop only): pack 6 is read without a request … -/
+example : firstLoopRepackIds wO wPlan = [5] ∧
+    ¬ WarmBeforeRead (trace .hotcold (firstLoopRepackIds wO wPlan) (prunePlanCmd wK wO wPlan (fun _ => 1)).reads) := by
+  refine ⟨by decide, fun h => ?_⟩
+  have := h [Ev.warm 5, Ev.coldRead 5] 6 [] (by decide)
+  simp at this
+
+/-- … and with `no_resize` pack 6 is kept and not read -/
+example : trace .hotcold (prunePlanCmd wK { wO with noResize := true } wPlan (fun _ => 1)).warm
+    (prunePlanCmd wK { wO with noResize := true } wPlan (fun _ => 1)).reads = [.warm 5, .coldRead 5] := by decide
+
+/-! #### where the warm-up request goes: every file type, both layouts, warm-up by access or by the store's own call -/
+
+/-- **access_warm_up_goes_to_cold.**  With `opts.warm_up` the request for ANY file (keys, config, snapshots, index files, packs)
+is one access of that file ON THE COLD STORE — with and without a hot store, whatever the cold store says about itself. -/
+theorem access_warm_up_goes_to_cold (n hasHot : Bool) (t : Rustic.Backends.FileType) (id : Nat) :
+    (repoBe n true hasHot).warmUp t id = [SEv.read .cold t id] := by
+  cases hasHot <;> rfl
+
+theorem native_warm_up_goes_to_cold (n hasHot : Bool) (t : Rustic.Backends.FileType) (id : Nat) :
+    (repoBe n false hasHot).warmUp t id = [SEv.warmReq .cold t id] := by
+  cases hasHot <;> rfl
+
+theorem needsWarmUp_repoBe (n w hasHot : Bool) : (repoBe n w hasHot).needsWarmUp = (w || n) := by
+  cases hasHot <;> cases w <;> rfl
+
+/-- `warm_up(repo, tpe, ids)`: nothing if neither `opts.warm_up` nor the store asks for it, else one request per id on the cold store -/
+theorem warmUpRepo_eq (n w hasHot : Bool) (t : Rustic.Backends.FileType) (ids : List Nat) :
+    warmUpRepo (repoBe n w hasHot) t ids =
+      if w then ids.map (fun id => SEv.read .cold t id) else if n then ids.map (fun id => SEv.warmReq .cold t id) else [] := by
+  unfold warmUpRepo
+  rw [needsWarmUp_repoBe]
+  cases w
+  · cases n
+    · rfl
+    · simp only [Bool.false_or, if_true, Bool.false_eq_true, if_false]
+      induction ids with
+      | nil => rfl
+      | cons a l ih => simp only [List.flatMap_cons, List.map_cons, native_warm_up_goes_to_cold, ih]; rfl
+  · simp only [Bool.true_or, if_true]
+    induction ids with
+    | nil => rfl
+    | cons a l ih => simp only [List.flatMap_cons, List.map_cons, access_warm_up_goes_to_cold, ih]; rfl
+
+/-- **cold_reads_warmed_on_cold.**  `open_only_cold` (keys, config) and `repair hotcold` (keys, snapshots, index files, tree
+packs): for EVERY file type, both layouts and both kinds of warm-up, a file the command reads from the cold store directly was
+the subject of an earlier event ON THE COLD STORE — the access (`opts.warm_up`) or the store's own `warm_up()` — provided the
+file is among the requested ids (it is: `keys` / `config_id` / `missing_hot` are both the request and the read list). -/
+theorem cold_reads_warmed_on_cold (n w hasHot : Bool) (hneed : (w || n) = true) (t : Rustic.Backends.FileType)
+    (ids reads : List Nat) (hsub : ∀ r ∈ reads, r ∈ ids) :
+    ∀ pre r post, coldDirectCmd (repoBe n w hasHot) t ids reads = pre ++ SEv.read .cold t r :: post →
+      r ∈ reads → (SEv.read .cold t r ∈ warmUpRepo (repoBe n w hasHot) t ids ∨ SEv.warmReq .cold t r ∈ warmUpRepo (repoBe n w hasHot) t ids) := by
+  intro pre r post _ hr
+  rw [warmUpRepo_eq]
+  cases w
+  · cases n
+    · cases hneed
+    · right
+      simp only [Bool.false_eq_true, if_false, if_true, List.mem_map]
+      exact ⟨r, hsub r hr, rfl⟩
+  · left
+    simp only [if_true, List.mem_map]
+    exact ⟨r, hsub r hr, rfl⟩
+
+/-- no event ever reaches the hot store from a warm-up request -/
+theorem warm_up_never_touches_hot (n w hasHot : Bool) (t : Rustic.Backends.FileType) (ids : List Nat) (t' : Rustic.Backends.FileType)
+    (id : Nat) : SEv.read .hot t' id ∉ warmUpRepo (repoBe n w hasHot) t ids := by
+  rw [warmUpRepo_eq]
+  cases w <;> cases n <;> simp
+
+/-- the seeded change C16-7 (`WarmUpAccessBackend` on top of the `HotColdBackend`): the access for a key / snapshot / index /
+config file is routed to the HOT store, the cold store sees nothing; packs (`cacheable = false`) still reach the cold store -/
+example : (Be.warmAccess (.hotCold (.cold false) .hot)).warmUp .key 5 = [SEv.read .hot .key 5] ∧
+    (Be.warmAccess (.hotCold (.cold false) .hot)).warmUp .snapshot 5 = [SEv.read .hot .snapshot 5] ∧
+    (Be.warmAccess (.hotCold (.cold false) .hot)).warmUp .index 5 = [SEv.read .hot .index 5] ∧
+    (Be.warmAccess (.hotCold (.cold false) .hot)).warmUp .config 5 = [SEv.read .hot .config 5] ∧
+    (Be.warmAccess (.hotCold (.cold false) .hot)).warmUp .pack 5 = [SEv.read .cold .pack 5] := by decide
+
+/-- the code as it is, `open_only_cold` with one key file on a hot/cold repository, `opts.warm_up`: access on cold, then the read -/
+example : coldDirectCmd (repoBe false true true) .key [5] [5] = [SEv.read .cold .key 5, SEv.read .cold .key 5] := by decide
 
 end warmup
 
